@@ -249,6 +249,10 @@ class Universe:
         elif op == "ReplaceAllUsesSeq":
             self._ret(ir.convenience.replace_all_uses_with([self.V(x) for x in c["vs"]], [self.V(x) for x in c["ws"]],
                                                            replace_graph_outputs=bool(c["flag"])))
+        elif op == "ReplaceNodes":
+            self._ret(ir.convenience.replace_nodes_and_values(
+                self.GF(c["g"]), self.N(c["n"]), [self.N(x) for x in c["vs"]], [self.N(x) for x in c["ws"]],
+                [self.V(c["v"])], [self.V(c["w"])]))
         elif op == "ReplaceAllUses":
             self._ret(self.V(c["v"]).replace_all_uses_with(self.V(c["w"]), replace_graph_outputs=bool(c["flag"])))
         else:
